@@ -208,7 +208,7 @@ fn value_part(run: &Run, thorough: bool) -> Acc {
             qs.push(format!("$[?{}<{}]", q, n));
         }
     }
-    for q in ["$[?$[?@.x]]", "$[?!$[?@.x==7777]]", "$[?$..[?@==1]]", "$[?value($[?@.x==null]).x==null]", "$[?$[?@.x==true].x]", "$[?@.x==value($[?@.x=='a']).x]"] {
+    for q in ["$[?$[?@.x]]", "$[?!$[?@.x==7777]]", "$[?$..[?@==1]]", "$[?value($[?@.x==null].x)==null]", "$[?$[?@.x==true].x]", "$[?@.x==value($[?@.x=='a'].x)]"] {
         qs.push(q.to_string());
     }
     for q in [
